@@ -476,7 +476,8 @@ class FakeSelect:
     def select(self, r, w, x, timeout=None):
         sock = r[0]
         if sock.closed:
-            raise OSError(9, "Bad file descriptor")
+            # a closed socket has fileno() == -1: the real select.select raises ValueError, not OSError
+            raise ValueError("file descriptor cannot be a negative integer (-1)")
         sock.poll()
         rd = [sock] if (sock.rbuf or sock.eof or sock.rerr is not None) else []
         return rd, [sock], []
